@@ -17,8 +17,39 @@ func init() {
 
 // runeConstsComparedWith: integer constants that fn compares (==) with values satisfying pred.
 func runeConstsCompared(fn *ssa.Function, pred func(v ssa.Value) bool) map[int64]bool {
+	return runeConstsComparedB(fn, pred, nil, 0)
+}
+
+// runeConstsComparedB also looks through helpers the rule tables do not know (a state function that became a one-line
+// wrapper around a shared, parameterised state): a helper's parameter that receives a constant at the call site counts
+// as that constant.
+func runeConstsComparedB(fn *ssa.Function, pred func(v ssa.Value) bool, bind map[ssa.Value]int64, depth int) map[int64]bool {
 	out := map[int64]bool{}
+	konst := func(v ssa.Value) (int64, bool) {
+		if k, ok := constIntOf(v); ok {
+			return k, true
+		}
+		if k, ok := bind[v]; ok {
+			return k, true
+		}
+		return 0, false
+	}
 	allInstrs(fn, func(_ *ssa.BasicBlock, in ssa.Instruction) {
+		if call, isCall := in.(ssa.CallInstruction); isCall && depth < 3 {
+			if h := call.Common().StaticCallee(); isUnknownHelper(h) && h != fn {
+				hb := map[ssa.Value]int64{}
+				for i, p := range h.Params {
+					if i < len(call.Common().Args) {
+						if k, ok := konst(call.Common().Args[i]); ok {
+							hb[p] = k
+						}
+					}
+				}
+				for k := range runeConstsComparedB(h, pred, hb, depth+1) {
+					out[k] = true
+				}
+			}
+		}
 		b, ok := in.(*ssa.BinOp)
 		if !ok || (b.Op != token.EQL && b.Op != token.NEQ) {
 			return
@@ -27,7 +58,7 @@ func runeConstsCompared(fn *ssa.Function, pred func(v ssa.Value) bool) map[int64
 		// character that is special on its own
 		afterBackslash := false
 		for _, fc := range relFacts(factsAt(b.Block())) {
-			if k, isC := constIntOf(fc.y); isC && k == '\\' && fc.r == relEQ {
+			if k, isC := konst(fc.y); isC && k == '\\' && fc.r == relEQ {
 				afterBackslash = true
 			}
 		}
@@ -35,7 +66,7 @@ func runeConstsCompared(fn *ssa.Function, pred func(v ssa.Value) bool) map[int64
 			return
 		}
 		for _, pr := range [][2]ssa.Value{{b.X, b.Y}, {b.Y, b.X}} {
-			if k, isC := constIntOf(pr[1]); isC && pred(pr[0]) {
+			if k, isC := konst(pr[1]); isC && pred(pr[0]) {
 				out[k] = true
 			}
 		}
@@ -413,6 +444,25 @@ func ruleC16Accounting(c *Ctx) {
 					okUnused = false
 				}
 			}
+			// library form of the same scan: the position of the first `false` in the used-marks (slices.Index(used, false))
+			if kt != nil && kt.Op == "bin" && len(kt.Args) == 2 {
+				idx := kt.Args[0]
+				if idx.Op == "call" && strings.HasPrefix(idx.Name, "slices.Index") && len(idx.Args) == 2 && strings.Contains(idx.Args[0].String(), "make:slice") && idx.Args[1].String() == "c:false" {
+					found := false
+					switch {
+					case kt.Name == ">=" && kt.Args[1].String() == "c:0", kt.Name == ">" && kt.Args[1].String() == "c:-1":
+						found = isTrueC(v)
+					case kt.Name == "<" && kt.Args[1].String() == "c:0", kt.Name == "==" && kt.Args[1].String() == "c:-1", kt.Name == "<=" && kt.Args[1].String() == "c:-1":
+						found = !isTrueC(v)
+					}
+					if found {
+						sawUnused = true
+						if p.Ret[1].Nil {
+							okUnused = false
+						}
+					}
+				}
+			}
 		}
 	}
 	c.Check(okUnused && sawUnused, "c16.accounting", key+"/unused-is-error", c.P.Pos(f.Pos()), "an argument that no placeholder used ends Sanitize with an error", "an unused argument is not reported")
@@ -620,7 +670,8 @@ func ruleC16LexerTokenizer(c *Ctx) {
 			continue
 		}
 		ok, n := true, 0
-		allInstrs(f, func(_ *ssa.BasicBlock, in ssa.Instruction) {
+		// (a state that is a one-line wrapper around a shared, parameterised state is judged by that helper's body)
+		deepInstrs(f, func(_ *ssa.Function, _ *TB, _ *ssa.BasicBlock, in ssa.Instruction) {
 			bo, isBo := in.(*ssa.BinOp)
 			if !isBo || (bo.Op != token.EQL && bo.Op != token.NEQ) {
 				return
